@@ -50,8 +50,14 @@ impl PendingTxs {
     }
 
     pub fn push(&mut self, tx: TransactionView, cycles: Cycle) {
+        // A transaction which is submitted again keeps the set of peers it was announced to.
+        let announced_peers = self
+            .txs
+            .remove(&tx.hash())
+            .map(|(_, _, peers)| peers)
+            .unwrap_or_default();
         self.txs
-            .insert(tx.hash(), (tx.data(), cycles, HashSet::new()));
+            .insert(tx.hash(), (tx.data(), cycles, announced_peers));
         if self.txs.len() > self.limit {
             self.txs.pop_front();
         }
